@@ -167,12 +167,21 @@ func cursorDeref(in ssa.Instruction) (bool, string) {
 
 func ruleCursorValidated(c *Ctx, r *R) {
 	// states: bit0 = validated (not lost), bit1 = node known non-nil since the last move
+	vf, vb := iterVariants(c)
 	for _, name := range []string{treeRel + ".forwardIterator.Next", treeRel + ".backwardIterator.Next", treeRel + ".cursor.Next", treeRel + ".cursor.Prev"} {
 		fn := c.fn(name)
+		var spec *variant
+		if vf != nil && name == vf.anchor {
+			fn, spec = vf.fn, vf
+		}
+		if vb != nil && name == vb.anchor {
+			fn, spec = vb.fn, vb
+		}
 		if fn == nil {
 			r.undecided(name+"|missing", token.NoPos, "anchor not found")
 			continue
 		}
+		spec.enter()
 		isLostCall := func(v ssa.Value) bool {
 			call, ok := v.(*ssa.Call)
 			if !ok {
@@ -241,6 +250,7 @@ func ruleCursorValidated(c *Ctx, r *R) {
 			r.ok(good, name+"|deref#"+itoa(n)+":"+what, posOf(in), "the cursor's node is dereferenced ("+what+") on a path where the cursor was not validated (lost() false / re-seek) or its node was not re-checked for nil after the last re-seek or step: after a re-seek that ran off the tree this is a nil dereference; without validation it reads a shifted slot")
 		}
 		pf.Exits(fn, ss(0))
+		spec.leave()
 		if n == 0 {
 			r.violated(name+"|deref", fn.Pos(), "expected raw reads of the cursor's node")
 		}
@@ -299,12 +309,21 @@ func ruleReseekDirection(c *Ctx, r *R) {
 		treeRel + ".cursor.Next":           "SeekFirstGreater",
 		treeRel + ".cursor.Prev":           "SeekLastLess",
 	}
+	vf, vb := iterVariants(c)
 	for _, name := range []string{treeRel + ".forwardIterator.Next", treeRel + ".backwardIterator.Next", treeRel + ".cursor.Next", treeRel + ".cursor.Prev"} {
 		fn := c.fn(name)
+		var spec *variant
+		if vf != nil && name == vf.anchor {
+			fn, spec = vf.fn, vf
+		}
+		if vb != nil && name == vb.anchor {
+			fn, spec = vb.fn, vb
+		}
 		if fn == nil {
 			r.undecided(name+"|missing", token.NoPos, "anchor not found")
 			continue
 		}
+		spec.enter()
 		var seeks []string
 		var pos token.Pos
 		okArg := true
@@ -335,6 +354,7 @@ func ruleReseekDirection(c *Ctx, r *R) {
 				}
 			}
 		})
+		spec.leave()
 		good := len(seeks) == 1 && seeks[0] == want[name] && okArg
 		got := strings.Join(seeks, ",")
 		r.ok(good, name+"|reseek", pos, "a lost cursor here must re-seek with "+want[name]+"(its remembered key) under lost(); found ["+got+"]: the exclusive seek skips a surviving key, the wrong direction moves the iterator backwards")
@@ -376,7 +396,19 @@ func ruleReseekDirection(c *Ctx, r *R) {
 	}
 	mirrorPair(c, r, "tree|SeekFirstGreater~SeekLastLess", treeRel+".cursor.SeekFirstGreater", treeRel+".cursor.SeekLastLess", treeSeekDuality)
 	mirrorPair(c, r, "tree|SeekFirstGreaterOrEqual~SeekLastLessOrEqual", treeRel+".cursor.SeekFirstGreaterOrEqual", treeRel+".cursor.SeekLastLessOrEqual", treeSeekDuality)
-	mirrorPair(c, r, "tree|Forward~Backward", treeRel+".cursor.Forward", treeRel+".cursor.Backward", treeSeekDuality)
+	if vf2, _ := iterVariants(c); vf2 != nil && vf2.merged {
+		// one iterator type with a direction flag: the constructors differ in exactly that field
+		useAstAliases(c, treeRel+".cursor.Forward")
+		fa, fb := withoutFlagField(c.decl(treeRel+".cursor.Forward"), vf2.flag), withoutFlagField(c.decl(treeRel+".cursor.Backward"), vf2.flag)
+		if fa == nil || fb == nil {
+			r.undecided("tree|Forward~Backward", token.NoPos, "function not found")
+		} else {
+			oa, ob := multisetDiff(funcAtoms(c.Fset, fa, nil), funcAtoms(c.Fset, fb, treeSeekDuality))
+			r.ok(len(oa) == 0 && len(ob) == 0, "tree|Forward~Backward", fb.Pos(), "Forward and Backward must build the same iterator, differing only in the direction flag: only in Forward: ["+strings.Join(oa, " | ")+"]; only in dual(Backward): ["+strings.Join(ob, " | ")+"]")
+		}
+	} else {
+		mirrorPair(c, r, "tree|Forward~Backward", treeRel+".cursor.Forward", treeRel+".cursor.Backward", treeSeekDuality)
+	}
 	// the two iterator Next methods are mirrors except for the name of the method being defined
 	d := newDuality(true, "first", "last", "greater", "less", "next", "prev", "forward", "backward")
 	d.keep["Next"] = false
@@ -386,6 +418,12 @@ func ruleReseekDirection(c *Ctx, r *R) {
 // forwardIterator.Next / backwardIterator.Next: Next↔Prev applies to cursor method calls only.
 func mirrorPairIter(c *Ctx, r *R) {
 	fa, fb := c.decl(treeRel+".forwardIterator.Next"), c.decl(treeRel+".backwardIterator.Next")
+	if vf, vb := iterVariants(c); vf != nil && vb != nil {
+		fa, fb = vf.decl, vb.decl
+		if vf.merged {
+			fa, fb = specialisedDecl(vf.decl, vf.flag, vf.val), specialisedDecl(vb.decl, vb.flag, vb.val)
+		}
+	}
 	if fa == nil || fb == nil {
 		r.undecided("tree|forwardIterator.Next~backwardIterator.Next", token.NoPos, "function not found")
 		return
@@ -471,4 +509,10 @@ func uncheckedDeref(f *ssa.Function, depth int) bool {
 		}
 	})
 	return res
+}
+
+// iterVariants: the Next methods of the iterators cursor.Forward / cursor.Backward build, by role (two types, or one type with
+// a direction flag - see variants.go).
+func iterVariants(c *Ctx) (*variant, *variant) {
+	return pairVariants(c, treeRel+".cursor.Forward", treeRel+".cursor.Backward", "Next", treeRel+".forwardIterator.Next", treeRel+".backwardIterator.Next")
 }
